@@ -307,9 +307,9 @@ theorem hDictField_pres {n0 : Nat} (env : Env) (recN : RecN) (hrec : HRecN) (hf 
       have p3 := hDictSchema_pres env hrec hf ctx own m f _ s2 s' hn2 hm h
       exact Pres.trans p1 (Pres.trans p2 p3)
 
-theorem hSeqField_pres {n0 : Nat} (hrec : HRecN) (hf : HFrame hrec) (ctx : Ctx) (own : Option Val) (m : Ref) (f : Key)
+theorem hSeqField_pres {n0 : Nat} (env : Env) (hrec : HRecN) (hf : HFrame hrec) (ctx : Ctx) (own : Option Val) (m : Ref) (f : Key)
     (tup : Bool) (items : List Ref) (s s' : HState) (hn : n0 ≤ s.h.size) (hm : n0 ≤ m)
-    (h : hSeqField hrec ctx own m f tup items s = .ok s') : Pres n0 s.h s'.h := by
+    (h : hSeqField env hrec ctx own m f tup items s = .ok s') : Pres n0 s.h s'.h := by
   unfold hSeqField at h
   repeat' (split at h)
   all_goals first
@@ -324,7 +324,7 @@ theorem hContainerField_pres {n0 : Nat} (env : Env) (recN : RecN) (hrec : HRecN)
   repeat' (split at h)
   all_goals first
     | exact hDictField_pres env recN hrec hf ctx _ m f _ s s' hn hm h
-    | exact hSeqField_pres hrec hf ctx _ m f _ _ s s' hn hm h
+    | exact hSeqField_pres env hrec hf ctx _ m f _ _ s s' hn hm h
     | (simp only [Except.ok.injEq] at h; subst h; exact Pres.refl _ _)
     | cases h
 
